@@ -16,7 +16,8 @@
                  ONCE, from ONE of the nodes tagged with that name ("widest schema, first in traversal order" after
                  optimisation — not reproducible here, so the choice is the parameter `pick`), and every node tagged with
                  that name reads the cached rows — deviation switch `cacheByName` (the cache key is the name alone).
-  `enginePlan dev pick` erases the tags again: a CTE-free `Query` whose `Spec.run` is the engine's answer.
+  `enginePlan dev tw pick` erases the tags again: a CTE-free `Query` whose `Spec.run` is the engine's answer.
+  Both deviations were repaired by /repo 91e8987 (finding C28-F1, fixed); `today` keeps the name of the tree the witnesses were taken from.
 
   `subst` / `inline` are the plan-level substitution used by the theorem "materialising a shared CTE = evaluating each
   reference separately" (IQE.Props.C28).
@@ -175,7 +176,8 @@ structure Dev where
   cacheByName : Bool := false
 deriving DecidableEq, Repr, Inhabited
 
-/-- the unchanged tree -/
+/-- the tree before /repo 91e8987 ("fix: WITH names are lexically scoped and a re-used name gets its own materialisation");
+    the repaired binder saves / restores the map around every WITH and tags each definition uniquely: `Dev` with both switches off -/
 def today : Dev := { scopeNeverRestored := true, cacheByName := true }
 
 mutual
